@@ -72,6 +72,8 @@ def check_nf1(case):
         return res
     gaps, _ = _match(res, words, out, opts)
     hz = hazards_nf1(words)
+    if any(words[i][0] == 'comment' and words[i - 1][0] == 'comment' for i in range(1, len(words))):
+        hz.add(HAZ_CMNL)          # a comment cluster belongs to the same family: blanks next to comments are not normalised to a fixed point
     suffix = (':' + HAZ_CMNL) if HAZ_CMNL in hz else ''
     if gaps is not None:
         if gaps[0] != '' or gaps[-1] != '':
@@ -225,7 +227,8 @@ def check_nf3(case):
 def no_comment_line_ends(case):
     """main search of NF1/NF2 behind F8b/F9b: no line end next to a comment (construction): line comments become block
     comments and the gaps around comments lose their line breaks"""
-    laid = case['lex']
+    laid = [l for l in case['lex'] if not (l[0] == 'comment' and l[3].get('cluster'))]     # no comment clusters either
+    case['lex'] = laid
     n = 0
     prev_comment = False
     for l in laid:
